@@ -3,7 +3,7 @@ import ast
 import string
 
 from ..index import u, call_name, call_attr, walk_local, base_name
-from .. import flow
+from .. import flow, interp
 from ..fold import try_fold
 from ..util import stmts_with_env, calls_with_env, assignments_to, single_def, kwarg, str_constants
 from . import shared
@@ -220,7 +220,7 @@ def run(ck):
     same_nodes = mol.func('Molecule.same_nodes')
     ck.analysed(mol, same_nodes)
     src_sn = u(same_nodes)
-    ck.ob('TAB-dedup-compares', mol.loc(same_nodes), 'list(self.nodes.keys()) != list(other.nodes.keys())' in src_sn and 'are_different' in src_sn
+    ck.ob('TAB-dedup-compares', mol.loc(same_nodes), ('list(self.nodes.keys()) != list(other.nodes.keys())' in src_sn or 'list(other.nodes.keys()) != list(self.nodes.keys())' in src_sn) and 'are_different' in src_sn
           and 'if key not in ignore_attr' in src_sn, 'same_nodes compares node keys in order and every non-ignored attribute', key='TAB-dedup-compares|same_nodes')
     # NameMolType
     nd = nm.func('NameMolType._name_with_deduplication')
@@ -233,9 +233,11 @@ def run(ck):
         if ok:
             il = inner[0]
             mid = u(il.target.elts[0])
-            tests = [n for n in il.body if isinstance(n, ast.If)]
-            ok = len(il.body) == 1 and len(tests) == 1 and u(tests[0].test) == '{}.share_moltype_with({})'.format(u(outer[0].target), u(il.target.elts[1])) \
-                and isinstance(tests[0].body[-1], ast.Break) and len(tests[0].body) == 1
+            brks = stmts_with_env(nd, lambda s_: isinstance(s_, ast.Break), stmts=il.body)
+            want_atom = ('atom', ('truth', '{}.share_moltype_with({})'.format(u(outer[0].target), u(il.target.elts[1]))))
+            effects = [n for st_ in il.body for n in ast.walk(st_) if isinstance(n, ast.stmt) and not isinstance(n, (ast.If, ast.Continue, ast.Break, ast.Pass))
+                       and not interp._is_log_stmt(n)]
+            ok = len(brks) == 1 and flow.equivalent(brks[0][1], want_atom)[0] and not effects
             new = u(ast.Module(body=il.orelse, type_ignores=[]))
             ok = ok and 'group_id += 1' in new and 'representatives.append((group_id, {}))'.format(u(outer[0].target)) in new and '{} = group_id'.format(mid) in new
             store = [s for s in outer[0].body if isinstance(s, ast.Assign) and 'meta[' in u(s.targets[0])]
